@@ -100,8 +100,9 @@ def build_node_tree(root: ElementTreeRootType,
     document: Optional[DocumentProtocol]
 
     position = 1
-    if namespaces is None:
-        namespaces = {}
+    # The positions reserve a slot for each namespace node: keep an own copy of the mapping,
+    # the lazily built namespace and attribute nodes must not follow later changes of the argument.
+    namespaces = {} if namespaces is None else dict(namespaces)
     ns_pos_offset = len(namespaces) + int('xml' not in namespaces) + 1
 
     if hasattr(root, 'parse'):
